@@ -82,6 +82,20 @@ class Check:
         self.bounded.append({"name": name, "bound": bound, "cases": cases, "failures": failures[:5], "n_failures": len(failures), "note": note, "replay_script": replay_script if failures else None})
 
     def fault(self, what):
+        """A fault of the machinery -- except when a native driver died from an exception raised inside the library under
+        test (the innermost frame of the traceback is a file of the repository): the drivers only feed inputs the
+        property covers and catch the exceptions it allows, so that is the library misbehaving, reported as a violation
+        of the bounded part with the traceback as evidence."""
+        from . import source
+
+        frames = re.findall(r'File "([^"]+)", line (\d+), in (\S+)', what)
+        if "Traceback (most recent call last)" in what or frames:
+            if frames and os.path.realpath(frames[-1][0]).startswith(os.path.realpath(source.REPO) + os.sep + "iodata" + os.sep):
+                fn, ln, func = frames[-1]
+                where = f"{os.path.relpath(fn, source.REPO)}:{func}"
+                last = what.strip().splitlines()[-1][:200]
+                self.add_bounded(f"driver.the library raised an unexpected exception in {where}", "inputs of the native driver of this check", 1, [{"where": f"{where} line {ln}", "exception": last, "traceback_tail": what[-1200:]}])
+                return
         self.faults.append(what)
 
     def set_replay(self, obligation, script, witness=None, note=""):
